@@ -513,7 +513,7 @@ where
         }
         visitor.finish_layer(
             layer,
-            dd.len() - old_len,
+            dd.len().saturating_sub(old_len),
             dd.len() - dd.tree.num_terminals(),
             dd.tree.num_terminals(),
         );
